@@ -126,6 +126,20 @@ CLAIMED.update({
         design="3/C06"),
 })
 
+CLAIMED.update({
+    "C01": dict(
+        engine="mir2smt",
+        technique="symbolic execution of the rustc MIR of the constant-pool slot-reuse predicate (read from emit_load_const / register_const) over two ValueObj operands "
+                  "with symbolic scalar variant and payload; z3 decides that constants sharing a co_consts slot are the same Python constant; counterexamples replayed natively",
+        category="other",
+        text="Kernel-level partial claim on the one part of the statement that has a bounded kernel (\"every literal value ... including naturals of 2**31 and above and signed "
+             "zeros\"): for every pair of scalar constants (Int, Nat, Float, Bool, None; every i32, u64, f64 bit pattern) the predicate by which the code generator reuses a "
+             "constant-pool slot holds only for the same Python constant (0.0 vs -0.0, Int(-1) vs Nat(2**64-1), cross-kind pairs). The bytes written for each constant are decided "
+             "under C15. Operator/call/control-flow emission, desugaring, linking and the prelude - i.e. almost all of 'the bytecode computes what the source means' - are not decided.",
+        note="Trusts rustc's MIR dump, engines/mir2smt.py, z3; the two-line pool logic around the predicate is read from the source, not encoded.",
+        design="3/C01"),
+})
+
 NOT_APPLICABLE = {}
 
 
